@@ -603,6 +603,28 @@ def is_private_helper(g):
     return (g.j.get("method") or g.name.split("::")[-1]) not in rule_names()
 
 
+def _closure_of_operand(blocks, locs, op, depth=0):
+    """id of the closure body an operand holds: follows plain copies back to a local whose type names exactly one closure"""
+    seen = set()
+    while isinstance(op, dict) and "l" in op and not op.get("p") and op["l"] not in seen and depth < 10:
+        depth += 1
+        seen.add(op["l"])
+        cl = locs[op["l"]].get("cl") or [] if op["l"] < len(locs) else []
+        if len(cl) == 1:
+            return cl[0]
+        srcs = []
+        for b in blocks:
+            if b.get("cleanup"):
+                continue
+            for s_ in b["stmts"]:
+                if s_["k"] == "assign" and s_["lhs"]["l"] == op["l"] and not s_["lhs"].get("p"):
+                    srcs.append(s_["rv"])
+        if len(srcs) != 1 or srcs[0]["k"] not in ("use", "ref") :
+            return None
+        op = srcs[0]["ops"][0] if srcs[0]["k"] == "use" else dict(srcs[0]["place"], k="copy")
+    return None
+
+
 def _subst_generics(x, gmap, key=None):
     """replace whole-word type parameter names inside the type strings of a copied block (self_ty / full / args / ty)"""
     if isinstance(x, dict):
@@ -643,6 +665,36 @@ def inline_private_helpers(F, fn, depth=2, max_blocks=4000, light=True):
             f = t["func"].get("fn") or {}
             cid = (f.get("res") or {}).get("id") or f.get("id")
             g = F.fns.get(cid) if cid else None
+            if (f.get("trait") or "") in ("std::ops::FnOnce", "std::ops::FnMut", "std::ops::Fn") and b.get("from") and len(t.get("args", [])) == 2:
+                # inside an inlined helper: `update(history)` applies the helper's closure parameter - when the caller handed it a
+                # closure literal, that closure's body is what runs here (`update_history(key, |h| h.reorg(n))`)
+                clid = _closure_of_operand(blocks, locs, t["args"][0])
+                cg = F.fns.get(clid) if clid else None
+                if cg is not None and cg.blocks and cg.kind == "closure" and len(cg.blocks) <= 60 and cg.id != fn.id and inlined.count(cg.name) < 4:
+                    n_args = cg.j["mir"]["argc"] - 1
+                    off_l, off_b = len(locs), len(blocks)
+                    for l in cg.j["mir"]["locals"]:
+                        locs.append(dict(l))
+                    dest, tgt = t["dest"], t.get("t")
+                    for gbi, gb in enumerate(cg.j["mir"]["blocks"]):
+                        nb = {"stmts": [_shift(s_, off_l, off_b) for s_ in gb["stmts"]], "term": _shift_term(gb["term"], off_l, off_b),
+                              "from": gb.get("from") or [cg.id, gbi]}
+                        if gb.get("cleanup"):
+                            nb["cleanup"] = True
+                        if gb["term"]["k"] == "return":
+                            nb["stmts"].append({"k": "assign", "lhs": dict(dest), "rv": {"k": "use", "ops": [{"l": off_l, "k": "move"}]}, "line": t["loc"]["l"]})
+                            nb["term"] = {"k": "goto", "t": tgt, "loc": gb["term"].get("loc", t["loc"])} if tgt is not None else {"k": "unreachable", "loc": t["loc"]}
+                        blocks.append(nb)
+                    b["stmts"].append({"k": "assign", "lhs": {"l": off_l + 1}, "rv": {"k": "use", "ops": [t["args"][0]]}, "line": t["loc"]["l"]})
+                    tup = t["args"][1]
+                    for i in range(n_args):
+                        if "l" in tup:
+                            src = {"l": tup["l"], "p": list(tup.get("p", [])) + [".%d" % i], "k": "copy"}
+                            b["stmts"].append({"k": "assign", "lhs": {"l": off_l + 2 + i}, "rv": {"k": "use", "ops": [src]}, "line": t["loc"]["l"]})
+                    b["term"] = {"k": "goto", "t": off_b, "loc": t["loc"]}
+                    inlined.append(cg.name)
+                    changed = True
+                continue
             if g is None or not g.blocks or g.id == fn.id or g.kind not in ("method", "fn"):
                 continue
             if g.j.get("trait") or g.j.get("in_trait") or (g.j.get("method") or g.name.split("::")[-1]) in anchors \
